@@ -551,7 +551,14 @@ func (a *A) ruleLossless() {
 				return
 			}
 			n++
-			xs := TermOf(cv.X, nil).String()
+			// the converted value, or - when it was first widened into a variable shared by several arms of a
+			// type switch - each value that variable can hold (the path exploration resolves it to one of them)
+			xs := map[string]bool{TermOf(cv.X, nil).String(): true}
+			for _, l := range phiLeaves(cv.X) {
+				if _, isK := l.(*ssa.Const); !isK {
+					xs[TermOf(l, nil).String()] = true
+				}
+			}
 			roles := []string{"x", "M"}
 			if signed {
 				roles = []string{"x", "M", "m"}
@@ -564,7 +571,7 @@ func (a *A) ruleLossless() {
 					return true
 				},
 				Role: func(t *Term) string {
-					if t.String() == xs {
+					if xs[t.String()] {
 						return "x"
 					}
 					return boundRole(t)
@@ -589,11 +596,18 @@ func (a *A) ruleLossless() {
 	fcT := a.Named("condition", "fastCompare")
 	numLit := a.FieldOf(fcT, "numLit")
 	for _, st := range storesToField(tf, numLit) {
-		vs := TermOf(st.Val, nil).String()
+		// the literal as parsed: the stored value itself, or (carried through a variable after a helper was
+		// folded in) each value the variable can hold, the placeholder constants of the refusing paths aside
+		vs := map[string]bool{TermOf(st.Val, nil).String(): true}
+		for _, l := range phiLeaves(st.Val) {
+			if _, isK := l.(*ssa.Const); !isK {
+				vs[TermOf(l, nil).String()] = true
+			}
+		}
 		spec := OrdSpec{Roles: []string{"x", "M", "m"},
 			Invariant: func(r map[string]int, _ map[string]bool) bool { return r["m"] < r["M"] },
 			Role: func(t *Term) string {
-				if t.String() == vs {
+				if vs[t.String()] {
 					return "x"
 				}
 				return boundRole(t)
